@@ -28,7 +28,9 @@
 // The file is compiled once per capacity (-DFS_PART=k), see tools/comp_fixedstring.py.
 #include "common.hpp"
 #include <algorithm>
+#include <cstdarg>
 #include <cstdint>
+#include <cwchar>
 #include <memory>
 #include <new>
 #include <sstream>
@@ -274,6 +276,13 @@ template <size_t L, size_t SU = SU_DEFAULT> struct Box : public IBox {
    std::vector<std::unique_ptr<char[]>> cbufs;
    std::vector<std::unique_ptr<SBuf>> sbufs;
    const std::vector<std::string>* A = nullptr;
+   /// "no NUL character was stored": an argument accessor sets `nulArg` when the argument of the current line can carry a NUL
+   /// into the string (a source with a NUL byte, the character 00, a pointer+count source whose terminator is readable);
+   /// `cleanBefore` = all three objects had strlen == length before the operation.  Both together decide whether the last
+   /// clause of C10 (length == strlen) is demanded after the operation, see wf().
+   mutable bool nulArg = false;
+   bool cleanBefore = false;
+   std::vector<std::unique_ptr<wchar_t[]>> wbufs;     ///< wide-string arguments (exact-size heap blocks)
 
    size_t curLen() const { return std::min(static_cast<size_t>(s->length()), L); }
 
@@ -296,6 +305,7 @@ template <size_t L, size_t SU = SU_DEFAULT> struct Box : public IBox {
    char C(size_t i) const {
       std::vector<unsigned char> v;
       if (!vh::hexDecode(A->at(i), v) || v.size() != 1) throw BadOp();
+      if (v[0] == 0) nulArg = true;
       return static_cast<char>(v[0]);
    }
    std::string rawsrc(size_t i, const char* pfx) const {
@@ -303,6 +313,7 @@ template <size_t L, size_t SU = SU_DEFAULT> struct Box : public IBox {
       if (tk.compare(0, 2, pfx) != 0) throw BadOp();
       std::string out;
       if (!decodeSrc(tk.substr(2), out)) throw BadOp();
+      if (out.find('\0') != std::string::npos) nulArg = true;
       return out;
    }
    /// C string argument: the bytes given plus a terminating NUL, allocated at exact size
@@ -316,7 +327,54 @@ template <size_t L, size_t SU = SU_DEFAULT> struct Box : public IBox {
    }
    size_t PL(size_t i) const { return rawsrc(i, "c:").size(); }          ///< bytes before the added NUL
    std::string PS(size_t i) const { return std::string(rawsrc(i, "c:").c_str()); }   ///< as a C string
-   std::string PR(size_t i) const { return rawsrc(i, "c:"); }
+   std::string PR(size_t i) const { nulArg = true; return rawsrc(i, "c:"); }   ///< pointer+count: the added NUL is readable
+   /// wide-string argument `-` or code points in hex joined by `.` (0 and values >= 2^31 refused, as in the driver):
+   /// the characters plus a terminating L'\0' in a heap block of exactly that size
+   const wchar_t* WS(size_t i, size_t* n = nullptr) {
+      const std::string& tk = A->at(i);
+      std::vector<wchar_t> w;
+      if (tk != "-") {
+         size_t b = 0;
+         for (;;) {
+            size_t e = tk.find('.', b);
+            std::string h = tk.substr(b, e == std::string::npos ? std::string::npos : e - b);
+            if (h.empty() || h.size() > 8) throw BadOp();
+            unsigned long v = 0;
+            for (char ch : h) {
+               if (ch >= '0' && ch <= '9') v = v * 16 + static_cast<unsigned long>(ch - '0');
+               else if (ch >= 'a' && ch <= 'f') v = v * 16 + static_cast<unsigned long>(ch - 'a' + 10);
+               else throw BadOp();
+            }
+            if (v == 0 || v >= 0x80000000ul) throw BadOp();
+            w.push_back(static_cast<wchar_t>(v));
+            if (e == std::string::npos) break;
+            b = e + 1;
+         }
+      }
+      std::unique_ptr<wchar_t[]> p(new wchar_t[w.size() + 1]);
+      for (size_t k = 0; k < w.size(); ++k) p[k] = w[k];
+      p[w.size()] = L'\0';
+      if (n) *n = w.size();
+      wbufs.push_back(std::move(p));
+      return wbufs.back().get();
+   }
+   /// what the C library itself makes of format and arguments (the reference of the std::string twin): the formatted
+   /// text, or the empty string when the formatter fails (vsnprintf < 0)
+   static std::string formatted(const char* fmt, ...) {
+      va_list ap;
+      va_start(ap, fmt);
+      va_list ap2;
+      va_copy(ap2, ap);
+      int n = std::vsnprintf(nullptr, 0, fmt, ap);
+      va_end(ap);
+      std::string out;
+      if (n >= 0) {
+         std::vector<char> b(static_cast<size_t>(n) + 1);
+         if (std::vsnprintf(b.data(), b.size(), fmt, ap2) == n) out.assign(b.data(), static_cast<size_t>(n));
+      }
+      va_end(ap2);
+      return out;
+   }
    std::string& SS(size_t i) {
       sbufs.emplace_back(new SBuf(rawsrc(i, "s:")));
       return *sbufs.back()->str;
@@ -365,13 +423,25 @@ template <size_t L, size_t SU = SU_DEFAULT> struct Box : public IBox {
       return pfx + "len=" + std::to_string(len) + " " + pfx + "buf=" +
              enc(reinterpret_cast<const unsigned char*>(o.c_str()), shown);
    }
-   template <class Obj> static std::string wf(const Obj& o, size_t cap, const char* name) {
+   /// `strict`: no NUL character was stored (the objects had strlen == length before the operation and no argument of
+   /// the operation carries a NUL), so the length must equal the C-string length of the buffer.  (Before seeded defect
+   /// C10-4 this test was `memchr( c_str(), 0, len) == nullptr && strlen != len`, which can never be true once
+   /// c_str()[ len] == 0 has been checked: a length that is too LARGE with a NUL inside went unnoticed.)
+   template <class Obj> static std::string wf(const Obj& o, size_t cap, const char* name, bool strict) {
       size_t len = o.length();
       if (len > cap) return std::string("wf ") + name + " length " + std::to_string(len) + " > capacity";
       if (o.c_str()[len] != '\0') return std::string("wf ") + name + " no NUL at length";
-      if (std::memchr(o.c_str(), 0, len) == nullptr && std::strlen(o.c_str()) != len)
-         return std::string("wf ") + name + " strlen differs";
+      if (strict) {
+         size_t sl = std::strlen(o.c_str());
+         if (sl != len)
+            return std::string("wf ") + name + " strlen differs: length " + std::to_string(len) + ", strlen " +
+                   std::to_string(sl) + ", no NUL character was stored";
+      }
       return "";
+   }
+   template <class Obj> static bool clean(const Obj& o, size_t cap) {
+      size_t len = o.length();
+      return len <= cap && o.c_str()[len] == '\0' && std::strlen(o.c_str()) == len;
    }
 
    std::string finish(const std::string& pre, const std::string& ar, const std::string& er, const std::string& eref,
@@ -383,9 +453,10 @@ template <size_t L, size_t SU = SU_DEFAULT> struct Box : public IBox {
          if (bad.empty()) bad = au.check("u"); else au.check("u");
          if (!bad.empty()) bad = "guard " + bad;
       }
-      if (bad.empty()) bad = wf(*s, L, "s");
-      if (bad.empty()) bad = wf(*t, L, "t");
-      if (bad.empty()) bad = wf(*u, SU, "u");
+      const bool strict = cleanBefore && !nulArg;
+      if (bad.empty()) bad = wf(*s, L, "s", strict);
+      if (bad.empty()) bad = wf(*t, L, "t", strict);
+      if (bad.empty()) bad = wf(*u, SU, "u", strict);
       size_t len = curLen();
       const unsigned char* raw = reinterpret_cast<const unsigned char*>(s->c_str());
       std::string out;
@@ -425,6 +496,7 @@ template <size_t L, size_t SU = SU_DEFAULT> struct Box : public IBox {
       std::string r2 = execIn(true, a);
       cbufs.clear();
       sbufs.clear();
+      wbufs.clear();
       world(false);
       if (r1.compare(0, 2, "!!") == 0) return r1;      // the arena's own oracle failed: report that
       size_t cut = r1.find(" e.r=");
@@ -436,7 +508,10 @@ template <size_t L, size_t SU = SU_DEFAULT> struct Box : public IBox {
    std::string execIn(bool m, const std::vector<std::string>& a) {
       cbufs.clear();
       sbufs.clear();
+      wbufs.clear();
       world(m);
+      nulArg = false;
+      cleanBefore = clean(*s, L) && clean(*t, L) && clean(*u, SU);
       try {
          return dispatch(a);
       } catch (const BadOp&) {
@@ -633,6 +708,27 @@ template <size_t L, size_t SU = SU_DEFAULT> struct Box : public IBox {
          return run(IMPL { s->sprintf("%s", p); RET_; }, TWIN { ref = ps; RET_; }); }
       OP("sprintf2", 2) { const char* p = P(1); std::string ps = PS(1); unsigned long v = N(2);
          return run(IMPL { s->sprintf("%s/%lu", p, v); RET_; }, TWIN { ref = ps + "/" + std::to_string(v); RET_; }); }
+      // formats with a wide-character conversion, ordinary conversions before and after it.  The process runs in the "C"
+      // locale (nothing in the harness or in the library calls setlocale / std::locale::global), where wcrtomb() fails with
+      // EILSEQ for every wide character above 0x7f: vsnprintf() then returns -1 after the output of the directives before
+      // the failing one.  kind = ls: "%s%ls%lu%s", lsp<prec>: "<%s>%.*ls=%lu;%s" (a precision that ends before the bad
+      // character makes the call succeed), lc: "%s%lc%lu%s".  Twin: what the C library itself formats, "" on failure.
+      OP("sprintf_w", 5) { const char* p = P(1); const std::string& kind = a[2]; size_t wn = 0; const wchar_t* w = WS(3, &wn);
+         unsigned long v = N(4); const char* q = P(5);
+         if (kind == "ls")
+            return run(IMPL { s->sprintf("%s%ls%lu%s", p, w, v, q); RET_; },
+                       TWIN { ref = formatted("%s%ls%lu%s", p, w, v, q); RET_; });
+         if (kind == "lc") { if (wn != 1) throw BadOp(); wint_t wc = static_cast<wint_t>(w[0]);
+            return run(IMPL { s->sprintf("%s%lc%lu%s", p, wc, v, q); RET_; },
+                       TWIN { ref = formatted("%s%lc%lu%s", p, wc, v, q); RET_; }); }
+         if (kind.compare(0, 3, "lsp") == 0 && kind.size() > 3 && kind.size() <= 13) {
+            unsigned long long pr = 0;
+            for (size_t k = 3; k < kind.size(); ++k) { if (kind[k] < '0' || kind[k] > '9') throw BadOp(); pr = pr * 10 + static_cast<unsigned long long>(kind[k] - '0'); }
+            if (pr >= 0x80000000ull) throw BadOp();
+            int prec = static_cast<int>(pr);
+            return run(IMPL { s->sprintf("<%s>%.*ls=%lu;%s", p, prec, w, v, q); RET_; },
+                       TWIN { ref = formatted("<%s>%.*ls=%lu;%s", p, prec, w, v, q); RET_; }); }
+         throw BadOp(); }
 
       // ----- compare ------------------------------------------------------------------------------
       OP("cmp_f", 1) return withF(1, [&](const auto& F) {
